@@ -31,28 +31,42 @@ class Unsupported(Undecided):
     pass
 
 
+class Partial(Exception):
+    pass
+
+
 class Failure:
-    __slots__ = ("label", "kind", "model", "detail", "path")
+    __slots__ = ("label", "kind", "model", "detail", "path", "replay")
 
     def __init__(self, label, kind, model, detail, path):
         self.label, self.kind, self.model, self.detail, self.path = label, kind, model, detail, path
+        self.replay = None     # native replay outcome, when the obligation has a reproducer
 
     def as_dict(self):
         return {"label": self.label, "kind": self.kind, "witness": self.model, "detail": self.detail,
-                "path": self.path}
+                "path": self.path, "replay": self.replay}
 
 
 class Ctx:
-    def __init__(self, prefix, opts):
+    def __init__(self, prefix, opts, solver=None, keep=0):
+        """solver/keep: incremental mode - `solver` still holds scopes 0..keep-1 of the previous run
+        (scope i = everything assumed after decision i-1 and before decision i, plus decision i-1's
+        alternative); re-execution is deterministic, so while fewer than `keep` decisions have been
+        replayed the assumptions are already in the solver and are not added again."""
         self.opts = opts
-        self.solver = z3.Solver()
-        self.solver.set("timeout", opts.get("timeout_ms", 10000))
+        if solver is None:
+            solver = z3.Solver()
+            solver.set("timeout", opts.get("timeout_ms", 10000))
+            keep = 0
+        self.solver = solver
+        self.keep = keep
         self.prefix = prefix
         self.pos = 0
         self.decisions = []       # [choice, remaining alternatives, n_total]
         self.adequacy = []        # (z3 bool, text) conditions under which the IW-bit model is exact
         self.watch = {}           # name -> z3 term, evaluated in counter-models
         self.failures = []
+        self.spurious = []
         self.n_checks = 0
         self.n_vcs = 0
         self.solver_s = 0.0
@@ -60,6 +74,9 @@ class Ctx:
         self.ghost = {}           # free-form per-path ghost state for contracts
         self.unknown_seen = False
         self.known_used = set()
+        self.ext_discharged = {}
+        self.describers = []      # callables(model) -> dict, merged into counter-model witnesses
+        self.prefer = []          # z3 Bools we would like true in counter-models (better replays)
 
     # --- solver helpers -------------------------------------------------------------------
     def _check(self, *extra):
@@ -76,12 +93,17 @@ class Ctx:
             self.n_checks += 1
         return r, m
 
+    def _add(self, c):
+        if len(self.decisions) < self.keep:
+            return      # replaying a scope that the incremental solver still holds
+        self.solver.add(c)
+
     def assume(self, c):
         if isinstance(c, bool):
             if not c:
                 raise PathEnd()
             return
-        self.solver.add(c)
+        self._add(c)
 
     def feasible(self, c):
         r, _ = self._check(c)
@@ -102,10 +124,14 @@ class Ctx:
         if self.pos < len(self.prefix):
             d = self.prefix[self.pos]
             self.pos += 1
-            self.decisions.append(d)
             i = d[0]
-            if alts[i] is not True:
-                self.solver.add(alts[i])
+            if len(self.decisions) >= self.keep:
+                self.solver.push()
+                self.decisions.append(d)
+                if alts[i] is not True:
+                    self.solver.add(alts[i])
+            else:
+                self.decisions.append(d)
             return i
         feas = []
         for i, a in enumerate(alts):
@@ -119,6 +145,7 @@ class Ctx:
         self.pos += 1
         if len(self.decisions) > self.opts.get("max_depth", 400):
             raise Undecided("decision depth budget exceeded")
+        self.solver.push()
         if alts[i] is not True:
             self.solver.add(alts[i])
         return i
@@ -149,6 +176,11 @@ class Ctx:
                     out[k] = str(v)
             except Exception as e:  # pragma: no cover
                 out[k] = f"<{e}>"
+        for fn in self.describers:
+            try:
+                out.update(fn(m))
+            except Exception as e:  # pragma: no cover
+                out["describe_error"] = repr(e)
         return out
 
     def path_desc(self):
@@ -192,13 +224,88 @@ class Ctx:
         if r == z3.unsat:
             return True
         if r == z3.unknown:
-            raise Undecided(f"solver unknown on {label}: {self.solver.reason_unknown()}")
-        self.failures.append(Failure(label, kind, self.model_dict(m), detail, self.path_desc()))
+            why = self.solver.reason_unknown()
+            alt = self._external(cond)
+            if alt == "unsat":
+                return True
+            raise Undecided(f"solver unknown on {label}: {why}; external solvers: {alt}")
+        if self.prefer:
+            m = self._preferred_model(cond, m)
+        f = Failure(label, kind, self.model_dict(m), detail, self.path_desc())
+        rp = self.opts.get("replay")
+        if rp is not None:
+            # replay the counter-model on the real, unmodified code right away: a counter-model that does
+            # not reproduce comes from an over-approximating callee contract - the obligation is then
+            # *unproved* (never counted as discharged), not violated, and exploration goes on
+            try:
+                _arm(0)
+                f.replay = rp(f.as_dict())
+            except Exception as e:  # noqa
+                f.replay = {"reproduced": False, "text": f"replay raised {type(e).__name__}: {e}"}
+            finally:
+                _arm(self.opts.get("path_budget_s", 120))
+            if not f.replay.get("reproduced"):
+                self.spurious.append(f)
+                raise PathEnd()
+        self.failures.append(f)
         if self.opts.get("stop_at_first_failure", True):
             raise PathEnd()
         if not isinstance(cond, bool):
             self.solver.add(cond)
         return False
+
+    def _external(self, cond):
+        """z3 4.13 left the VC open: hand the same query (SMT-LIB 2) to z3 5.1 and cvc5.  Only an `unsat`
+        answer is used (the VC is then discharged by that back end); anything else stays undecided."""
+        import subprocess, tempfile, os
+        self.solver.push()
+        try:
+            if not isinstance(cond, bool):
+                self.solver.add(z3.Not(cond))
+            smt = self.solver.to_smt2()
+        finally:
+            self.solver.pop()
+        t = int(self.opts.get("external_timeout_s", 60))
+        with tempfile.NamedTemporaryFile("w", suffix=".smt2", delete=False, dir=os.environ.get("TMPDIR", "/tmp")) as f:
+            f.write(smt)
+            path = f.name
+        out = []
+        try:
+            for name, cmd in (("z3-5.1", ["z3-new", f"-T:{t}", path]), ("cvc5", ["/usr/bin/cvc5", f"--tlimit={t * 1000}", path])):
+                try:
+                    r = subprocess.run(cmd, capture_output=True, text=True, timeout=t + 10).stdout.strip().splitlines()
+                    ans = r[0] if r else "?"
+                except Exception as e:  # noqa
+                    ans = type(e).__name__
+                out.append(f"{name}:{ans}")
+                if ans == "unsat":
+                    self.ext_discharged[name] = self.ext_discharged.get(name, 0) + 1
+                    return "unsat"
+        finally:
+            os.unlink(path)
+        return ",".join(out)
+
+    def _preferred_model(self, cond, m):
+        """A counter-model that makes as many of the preferred Booleans true as possible (greedy)."""
+        self.solver.push()
+        try:
+            if not isinstance(cond, bool):
+                self.solver.add(z3.Not(cond))
+            for p in self.prefer[:40]:
+                if z3.is_true(m.eval(p, model_completion=True)):
+                    self.solver.add(p)
+                    continue
+                self.solver.push()
+                self.solver.add(p)
+                if self.solver.check() == z3.sat:
+                    m = self.solver.model()
+                    self.solver.pop()
+                    self.solver.add(p)
+                else:
+                    self.solver.pop()
+            return m
+        finally:
+            self.solver.pop()
 
     def fail(self, label, detail="", kind="raises"):
         """The path itself is a violation (e.g. a forbidden exception on a feasible path)."""
@@ -228,12 +335,28 @@ class Result:
         self.covers = {}
         self.known_used = set()
         self.samples = []
+        self.spurious = []
+        self.ext_discharged = {}
 
     def as_dict(self):
         return {"status": self.status, "paths": self.paths, "vcs": self.vcs, "solver_checks": self.checks,
                 "solver_s": round(self.solver_s, 3), "wall_s": round(self.wall_s, 3), "reason": self.reason,
                 "failures": [f.as_dict() for f in self.failures[:5]], "n_failures": len(self.failures),
-                "covers": self.covers, "known_used": sorted(self.known_used), "samples": self.samples[:2]}
+                "covers": self.covers, "known_used": sorted(self.known_used), "samples": self.samples[:2],
+                "ext_discharged": self.ext_discharged, "n_spurious": len(self.spurious), "spurious": [f.as_dict() for f in self.spurious[:3]]}
+
+
+def _on_alarm(*_):
+    raise Undecided("a single path exceeded its time budget (loop in the code under verification?) " + " ".join(CUR.path_desc()[-6:] if CUR else []))
+
+
+def _arm(seconds):
+    import signal
+    import threading
+    if threading.current_thread() is not threading.main_thread():
+        return
+    signal.signal(signal.SIGALRM, _on_alarm)
+    signal.setitimer(signal.ITIMER_REAL, seconds)
 
 
 def explore(body, opts=None):
@@ -247,10 +370,13 @@ def explore(body, opts=None):
     res = Result()
     t0 = time.time()
     prefix = []
+    solver, keep = None, 0
     try:
         while True:
-            ctx = Ctx(prefix, opts)
+            ctx = Ctx(prefix, opts, solver, keep)
+            solver = ctx.solver
             CUR = ctx
+            _arm(opts.get("path_budget_s", 120))
             try:
                 cov = body(ctx)
                 ctx.check_adequacy()
@@ -261,13 +387,21 @@ def explore(body, opts=None):
             except PathEnd:
                 pass
             finally:
+                _arm(0)
                 CUR = None
             res.paths += 1
             res.vcs += ctx.n_vcs
             res.checks += ctx.n_checks
             res.solver_s += ctx.solver_s
             res.failures.extend(ctx.failures)
+            if len(res.spurious) < 50:
+                res.spurious.extend(ctx.spurious)
+            elif ctx.spurious:
+                res.spurious.append(ctx.spurious[0])
+                res.spurious = res.spurious[:3] + res.spurious[-40:]
             res.known_used |= ctx.known_used
+            for k, v in ctx.ext_discharged.items():
+                res.ext_discharged[k] = res.ext_discharged.get(k, 0) + v
             if len(res.failures) >= max_fail:
                 break
             dec = ctx.decisions
@@ -278,17 +412,33 @@ def explore(body, opts=None):
             last = dec[-1]
             dec[-1] = [last[1][0], last[1][1:]] + list(last[2:])
             prefix = dec
+            # incremental solver: drop the scopes of the flipped decision and everything after it
+            nscopes = solver.num_scopes()
+            keep = len(dec) - 1
+            if nscopes > keep:
+                solver.pop(nscopes - keep)
+            elif nscopes < keep:   # cannot happen; fall back to a fresh solver
+                solver, keep = None, 0
             if res.paths >= max_paths:
-                raise Undecided(f"path budget {max_paths} exhausted")
+                raise Partial(f"path budget {max_paths} exhausted")
             if time.time() > deadline:
-                raise Undecided("time budget exhausted")
+                raise Partial(f"time budget {opts.get('budget_s', 600)} s exhausted")
+    except Partial as e:
+        # exploration incomplete: what was explored is a *bounded* result, never counted as proved
+        res.status = "partial"
+        res.reason = str(e)
+        CUR = None
     except Undecided as e:
         res.status = "undecided"
         res.reason = str(e)
         CUR = None
     if res.failures:
         res.status = "violated"
-    elif res.status == "discharged" and (res.paths == 0 or res.vcs == 0):
+    elif res.spurious and res.status in ("discharged", "partial"):
+        res.status = "unproved"
+        res.reason = (f"{len(res.spurious)} counter-model(s) that do not reproduce on the real code "
+                      "(a callee contract over-approximates); not counted as discharged")
+    elif res.status in ("discharged", "partial") and (res.paths == 0 or res.vcs == 0):
         res.status = "undecided"
         res.reason = "vacuous: zero paths or zero verification conditions"
     res.wall_s = time.time() - t0
